@@ -544,6 +544,13 @@ def run(an: Analysis, rep):
                 "no fromfile_prefix_chars: every argument, including the program text after -c / -e, is used as given" if not bad else
                 f"fromfile_prefix_chars={norm_src(ff)}: argparse replaces ANY argument that starts with such a character - also the value of -c / -e - by the lines of the file it "
                 f"names; a valid program whose text starts with it (`@staticmethod\\ndef f(): ...` for '@') is not compiled but looked up as a file, and the command exits 2")
+    from .common import SharedRules as _SR16, purity as _purity16
+    rep.run(_purity16, an, rep, "R16.P", ["from_code", "normalize", "to_json", "to_code"])
+    from . import c03 as _c03r
+    shr16 = _SR16(rep, "R16.R", "the code --dis-after disassembles is laid out from data without recorded widths: the encoder's re-layout and layout fold (shared with C03's R03.7 / R03.E) - "
+                                "'--dis-after shows the same instructions as --dis'")
+    rep.run(_c03r.r037, an, shr16)
+    rep.run(_c03r.r03e, an, shr16)
     # ---- R16.J the --json document: what is printed is loadable, and printable as the command prints it
     from .common import SharedRules
     from . import c07
